@@ -48,96 +48,9 @@ def _escapes(c, val, needed):
     return seen >= set(needed)
 
 
-def _expand_val(v, i):
-    """[(tests, expr)] for a value (its element i when unpacked)."""
-    if isinstance(v, ast.IfExp):
-        a, b = _expand_val(v.body, i), _expand_val(v.orelse, i)
-        if a is None or b is None:
-            return None
-        return [([(v.test, True)] + cs, e) for cs, e in a] + [
-            ([(v.test, False)] + cs, e) for cs, e in b]
-    if i is None:
-        return [([], v)]
-    if isinstance(v, ast.Tuple) and i < len(v.elts):
-        return [([], v.elts[i])]
-    return None
-
-
-def _defs_in(s, name):
-    """Alternatives when statement s (re)defines the local; False when it
-    does not touch it; None when it does in a way that is not followed."""
-    if isinstance(s, ast.Assign):
-        for t in s.targets:
-            if isinstance(t, ast.Name) and t.id == name:
-                r = _expand_val(s.value, None)
-                # `v = f(v)`: the old value is the name itself
-                return r
-            if isinstance(t, ast.Tuple):
-                for i, e in enumerate(t.elts):
-                    if isinstance(e, ast.Name) and e.id == name:
-                        return _expand_val(s.value, i)
-        return False
-    if not any(isinstance(n, ast.Name) and n.id == name and isinstance(
-            n.ctx, ast.Store) for n in ast.walk(s)):
-        return False
-    if isinstance(s, ast.If):
-        a, b = _last_def(s.body, name), _last_def(s.orelse, name)
-        if a is None or b is None:
-            return None
-        keep = [([], ast.Name(id=name, ctx=ast.Load()))]
-        a = keep if a is False else a
-        b = keep if b is False else b
-        return [([(s.test, True)] + cs, e) for cs, e in a] + [
-            ([(s.test, False)] + cs, e) for cs, e in b]
-    return None
-
-
-def _last_def(block, name):
-    for s in reversed(block):
-        r = _defs_in(s, name)
-        if r is False:
-            continue
-        return r
-    return False
-
-
-def _alts(c, f, expr, at):
-    """[(tests, expr)]: what the expression (a local: its nearest
-    definitions before statement `at`) may be, each with the (test node,
-    polarity) pairs it is taken under; None when not followed."""
-    if not isinstance(expr, ast.Name):
-        return [([], expr)]
-    cur = c.idx.stmt_of(at)
-    while cur is not f.node and id(cur) in c.idx.parent:
-        par = c.idx.parent[id(cur)]
-        for field in ('body', 'orelse', 'finalbody'):
-            blk = getattr(par, field, None)
-            if isinstance(blk, list) and any(x is cur for x in blk):
-                i = [k for k, x in enumerate(blk) if x is cur][0]
-                r = _last_def(blk[:i], expr.id)
-                if r is not False:
-                    return r
-        cur = par
-    return [([], expr)]         # a parameter
-
-
-def _enclosing(c, f, node):
-    """(test, polarity) of the `if`s the node sits in."""
-    out = []
-    cur = c.idx.stmt_of(node)
-    while cur is not f.node and id(cur) in c.idx.parent:
-        par = c.idx.parent[id(cur)]
-        if isinstance(par, ast.If):
-            if any(x is cur for x in par.body):
-                out.append((par.test, True))
-            elif any(x is cur for x in par.orelse):
-                out.append((par.test, False))
-        cur = par
-    return out
-
-
-def _compatible(cs1, cs2):
-    return not any(t1 is t2 and p1 != p2 for t1, p1 in cs1 for t2, p2 in cs2)
+from rules._shared import (value_alts as _alts,  # noqa: E402
+                           enclosing_tests as _enclosing,
+                           compatible_tests as _compatible)
 
 
 def _ret_formula(stmts):
